@@ -184,7 +184,7 @@ func (dist *GevDistribution) SetParameters(parameters Vector) error {
 
 func (dist *GevDistribution) ImportConfig(config ConfigDistribution, t ScalarType) error {
 
-  if parameters, ok := config.GetParametersAsFloats(); !ok {
+  if parameters, ok := config.GetParametersAsFloats(); !ok || len(parameters) < 3 {
     return fmt.Errorf("invalid config file")
   } else {
     mu    := NewScalar(t, parameters[0])
